@@ -162,6 +162,44 @@ fn variation_cases(tier: Tier) -> Vec<(String, Vec<(String, Vec<u8>)>, ArcLayout
             }
         }
     }
+    let mut pairs: Vec<(String, String)> = vcore::collide::pairs().iter().map(|(_, a, b)| (a.clone(), b.clone())).collect();
+    pairs.extend(vcore::sjis::suffix_pairs());
+    for (i, (a, b)) in pairs.iter().enumerate() {
+        if a.is_empty() || b.is_empty() {
+            continue;
+        }
+        let files = vec![(a.clone(), body(0, 5)), (b.clone(), body(1, 33)), (format!("{}{}", a, b), body(2, 1))];
+        for (k, tw) in tweaks(false).into_iter().enumerate() {
+            if k % 2 == i % 2 {
+                v.push((format!("name pair #{} tweak {}", i, k), files.clone(), lay(3, k % 4 < 2, i % 2 == 0), tw));
+            }
+        }
+    }
+    for (i, chunk) in vcore::sjis::domain().chunks(40).enumerate() {
+        let files: Vec<(String, Vec<u8>)> = chunk.iter().enumerate().map(|(k, ch)| (format!("{}{}x", ch, k), body(k % 5, k % 4))).collect();
+        v.push((format!("domain characters #{}", i), files.clone(), lay(files.len(), i % 2 == 0, false), ArcTweak { label_records: (i % 3) as u8, ..Default::default() }));
+    }
+    // every order of the label table (labels of one address need not be adjacent) and the
+    // tail-shared text section, for two retail-style images
+    {
+        let files: Vec<(String, Vec<u8>)> = vec![("unit_model.bin".into(), body(0, 5)), ("model.bin".into(), body(1, 9))];
+        for label_records in 1..3u8 {
+            for padded in [true, false] {
+                for k in 0..60usize {
+                    v.push((format!("label table permutation {} (records labelled {}, padded {})", k, label_records, padded), files.clone(), lay(2, padded, false), ArcTweak { label_records, label_table_perm: k, tail_shared_text: k % 2 == 0, ..Default::default() }));
+                }
+            }
+        }
+        for (i, (a, b)) in vcore::sjis::suffix_pairs().into_iter().enumerate() {
+            if a.is_empty() || b.is_empty() {
+                continue;
+            }
+            let files: Vec<(String, Vec<u8>)> = vec![(a.clone(), body(0, 3)), (b.clone(), body(1, 4)), ("other".into(), body(2, 0))];
+            for padded in [true, false] {
+                v.push((format!("tail-shared names #{}", i), files.clone(), lay(3, padded, i % 2 == 0), ArcTweak { tail_shared_text: true, label_records: (i % 3) as u8, ..Default::default() }));
+            }
+        }
+    }
     // shared bodies: 2..=4 names for one body of 0..=400 bytes (every length at the thorough tier)
     let lens: Vec<usize> = tier.pick(vec![0, 1, 4, 26, 27, 36, 37, 74, 75, 100, 132, 133, 200, 300, 400, 4096, 70_000], (0..=400).chain([4096, 70_000]).collect());
     for k in 2..=4usize {
